@@ -2,9 +2,13 @@
 //! (C12: MessageView on arbitrary bytes).  64-bit `usize` is assumed.
 //!
 //! `tlvview`:  `view <hex> <lookups>`
+//!             `viewt <hex> <lookups>`   same oracle, terse observation (digests) for messages with hundreds of pairs
+//!             `viewit <iter|tags> <hex> <script>`  iterator-protocol script (`iterscript.rs`) on `iter()` / `tags().iter()`
 //! `tlv`:      `msg <new|sorted|slice> <cow|str|ref|h> <tag:kind:payload,...|->`
 //!             (kinds: b/o = borrowed/owned bytes, m = message in slot <payload>, v = MessageView of that slot's encoding,
 //!              f = value whose rough_tlv_len reports <payload>, never encoded)
+//!             `msgrun <ctor> <vt> <L> <defect>`  the same on a generated list (`msgrun_items`: L pairs, empty values,
+//!              ascending tags, ONE defect at a chosen position) - the single-defect sweeps
 //!             `enc <slot> <iov|hcobs>`  (answers `calls <b|c><len>,...`: every `ZeroCopySink` call `encode` made on the
 //!              sink, in order, method + length, recorded by a pass-through sink wrapper; sink `hcobs` also `wire <hex>`,
 //!              the bytes the real `hcobs::Encoder` sink holds after `finish`)
@@ -250,9 +254,128 @@ fn parse_u32_list(s: &str) -> Option<Vec<u32>> {
 pub struct TlvViewFamily;
 struct TlvViewExec;
 
+/// `viewit <iter|tags> <hex> <script>`: `MessageView::new`, then an iterator-protocol script
+/// (`iterscript.rs`) on `iter()` (forward-only) or on `tags().iter()` (a slice iterator:
+/// double-ended, exact size), against a `Vec` of the pairs / tags obtained through `get(i)`.
+fn view_iter_script(src: &str, d: &[u8], steps: &[crate::iterscript::Step], script: &str) -> StepOut {
+    use crate::iterscript as its;
+    let mut so = StepOut::default();
+    let msg = match MessageView::new(Cow::Borrowed(d)) {
+        Err(e) => {
+            if ref_accepts(d) {
+                so.violations.push(format!("C12 rejected a well-formed message ({})", dec_err_str(&e)));
+            }
+            so.obs.push(format!("new err {}", dec_err_str(&e)));
+            return so;
+        }
+        Ok(m) => m,
+    };
+    if !ref_accepts(d) {
+        so.violations.push("C12 accepted a malformed message".into());
+    }
+    let n = msg.len();
+    let mut items: Vec<String> = Vec::with_capacity(n);
+    for i in 0..n {
+        match msg.get(i) {
+            Some((t, v)) => items.push(if src == "iter" { pair_str(t, v) } else { t.value().to_string() }),
+            None => {
+                so.violations.push(format!("C12 get({}) is None with n={}", i, n));
+                break;
+            }
+        }
+    }
+    let (obs, diff) = if src == "iter" {
+        let real = its::forward(msg.iter(), |p: (Tag, &[u8])| pair_str(p.0, p.1), its::cap_for(n));
+        its::run_both("C12", "MessageView::iter() against get(i)", steps, script, real, items, false)
+    } else {
+        let real = its::double_ended(msg.tags().iter(), |t: &Tag| t.value().to_string(), its::cap_for(n));
+        its::run_both("C12", "MessageView::tags().iter() against get(i)", steps, script, real, items, true)
+    };
+    so.obs.push(obs);
+    so.violations.extend(diff);
+    so.tags.push(format!("viewit_{}_n{}", src, n.min(6)));
+    so
+}
+
+/// FNV-1a, 64 bit (the Lean driver computes the same over the same text).
+fn fnv64(bytes: &[u8]) -> u64 {
+    let mut h: u64 = 0xcbf29ce484222325;
+    for b in bytes {
+        h ^= *b as u64;
+        h = h.wrapping_mul(0x100000001b3);
+    }
+    h
+}
+
+/// The terse observation of `viewt` (for messages with hundreds of pairs, where the full `view`
+/// observation is quadratic in N): the `new` line; then count + FNV-1a digest of the `tags` and
+/// `iter` texts of the full observation, `get` / `getv` at a handful of indices, `find` of the lookups.
+fn view_terse(d: &[u8], lookups: &[u32]) -> Vec<String> {
+    let msg = match MessageView::new(Cow::Borrowed(d)) {
+        Err(e) => return vec![format!("new err {}", dec_err_str(&e))],
+        Ok(m) => m,
+    };
+    let n = msg.len();
+    let mut obs = vec![format!("new ok n={} empty={}", n, msg.is_empty() as u8)];
+    let tags_text = nat_list(&msg.tags().iter().map(|t| t.value() as usize).collect::<Vec<_>>());
+    obs.push(format!("tags #{}:{:016x}", msg.tags().len(), fnv64(tags_text.as_bytes())));
+    let it: Vec<String> = msg.iter().map(|(t, v)| pair_str(t, v)).collect();
+    let it_text = if it.is_empty() { "-".to_string() } else { it.join(";") };
+    obs.push(format!("iter #{}:{:016x}", it.len(), fnv64(it_text.as_bytes())));
+    let mut idxs: Vec<usize> = vec![0, n / 2, n.saturating_sub(1), n, n + 1, 4294967296, usize::MAX];
+    idxs.dedup();
+    obs.push(format!(
+        "get {}",
+        idxs.iter()
+            .map(|i| format!("{}={}/{}", i, match msg.get(*i) { None => "none".to_string(), Some((t, v)) => pair_str(t, v) }, opt_hex(msg.get_value(*i))))
+            .collect::<Vec<_>>()
+            .join(" ")
+    ));
+    let finds: Vec<String> = lookups
+        .iter()
+        .map(|w| format!("{}={}/{}", w, match msg.find_tag(*w) { None => "none".to_string(), Some(i) => i.to_string() }, opt_hex(msg.find(*w))))
+        .collect();
+    obs.push(format!("find {}", if finds.is_empty() { "-".to_string() } else { finds.join(" ") }));
+    obs
+}
+
 impl Exec for TlvViewExec {
+    fn flush_before(&self, w: &[&str]) -> bool {
+        matches!(w, ["viewit", ..])
+    }
     fn step(&mut self, w: &[&str]) -> StepOut {
         match w {
+            ["viewit", src @ ("iter" | "tags"), hex, script] => {
+                let (Some(d), Some(steps)) = (from_hex(hex), crate::iterscript::parse(script)) else { return StepOut::bad() };
+                match catch_unwind(AssertUnwindSafe(|| view_iter_script(src, &d, &steps, script))) {
+                    Ok(so) => so,
+                    Err(_) => {
+                        let mut so = StepOut::obs("panic");
+                        so.violations.push(format!("C12 MessageView or its iterator panicked in script `{}`", script));
+                        so
+                    }
+                }
+            }
+            ["viewt", hex, lk] => {
+                // same oracle as `view` (every accessor, every index), terse observation
+                let (Some(d), Some(lookups)) = (from_hex(hex), parse_u32_list(lk)) else { return StepOut::bad() };
+                let mut so = StepOut::default();
+                let (_, v, panicked) = view_obs(&d, &lookups, &mut so.tags);
+                so.violations.extend(v);
+                if panicked {
+                    so.obs.push("panic".into());
+                    return so;
+                }
+                match catch_unwind(AssertUnwindSafe(|| view_terse(&d, &lookups))) {
+                    Ok(o) => so.obs = o,
+                    Err(_) => {
+                        so.obs.push("panic".into());
+                        so.violations.push("C12 MessageView panicked on untrusted bytes".into());
+                    }
+                }
+                so.tags.push("viewt".into());
+                so
+            }
             ["view", hex, lk] => {
                 let (Some(d), Some(lookups)) = (from_hex(hex), parse_u32_list(lk)) else { return StepOut::bad() };
                 let mut so = StepOut::default();
@@ -426,6 +549,36 @@ fn gen_valid(rng: &mut Rng, n: usize) -> Vec<u8> {
     d
 }
 
+/// `n` pairs with tags `10 + 2j` and one-byte values `j` (offsets 1, 2, ..): everything strictly ascending.
+fn sweep_message(n: usize) -> Vec<u8> {
+    let mut d = Vec::with_capacity(9 * n + 4);
+    d.extend_from_slice(&(n as u32).to_le_bytes());
+    for j in 1..n {
+        d.extend_from_slice(&(j as u32).to_le_bytes());
+    }
+    for j in 0..n {
+        d.extend_from_slice(&(10 + 2 * j as u32).to_le_bytes());
+    }
+    d.extend((0..n).map(|j| j as u8));
+    d
+}
+
+/// `(N, every position?)` of the single-defect sweep of `MessageView::new`.
+fn view_sweep_sizes(thorough: bool) -> Vec<(usize, bool)> {
+    let mut v: Vec<(usize, bool)> = (2..=24).map(|n| (n, true)).collect();
+    v.extend((63..=66).map(|n| (n, true)));
+    v.extend((127..=130).map(|n| (n, true)));
+    if thorough {
+        v.extend((25..=62).map(|n| (n, true)));
+        v.extend((255..=258).map(|n| (n, true)));
+        v.push((300, true));
+        v.extend((511..=514).map(|n| (n, false)));
+    } else {
+        v.extend((256..=257).map(|n| (n, false)));
+    }
+    v
+}
+
 fn put32(d: &mut [u8], word: usize, v: u32) {
     if 4 * word + 4 <= d.len() {
         d[4 * word..4 * word + 4].copy_from_slice(&v.to_le_bytes());
@@ -493,10 +646,101 @@ impl Family for TlvViewFamily {
             let lk = |x: &[u8]| format!("view {} {},{},0,4294967295", to_hex(x), rd32(x, n), rd32(x, 2 * n - 1));
             cases.push(vec![lk(&d), lk(&over), lk(&cut)]);
         }
+        // (c') SINGLE-DEFECT SWEEP (track gen3) of the two "all neighbours are ordered" scans of `new`: for N
+        // pairs (values of one byte each, so offsets 1, 2, ... and tags 10, 12, ... are strictly ascending)
+        // exactly one descent at EVERY position of the offsets and of the tags, plus equal neighbours and a
+        // last offset beyond the payload; terse observation (`viewt`).
+        for (n, every) in view_sweep_sizes(thorough) {
+            let base = sweep_message(n);
+            let lookups = format!("{},{},{},11,0,4294967295", 10, 10 + 2 * (n / 2), 10 + 2 * (n - 1));
+            let mut ops: Vec<String> = vec![format!("viewt {} {}", to_hex(&base), lookups)];
+            let positions = |count: usize| -> Vec<usize> {
+                if every {
+                    (0..count).collect()
+                } else {
+                    let mut p: Vec<usize> = vec![0, 1, count / 2, count.saturating_sub(2), count.saturating_sub(1)];
+                    p.extend((1..=count / 32).flat_map(|k| [32 * k - 2, 32 * k - 1, 32 * k, 32 * k + 1]));
+                    p.retain(|i| *i < count);
+                    p.sort_unstable();
+                    p.dedup();
+                    p
+                }
+            };
+            // offsets are words 1..=n-1 (n-1 of them): descents at word pairs (1+i, 2+i)
+            for i in positions(n.saturating_sub(2)) {
+                let mut d = base.clone();
+                let (a, b) = (rd32(&d, 1 + i) as u32, rd32(&d, 2 + i) as u32);
+                put32(&mut d, 1 + i, b);
+                put32(&mut d, 2 + i, a);
+                ops.push(format!("viewt {} {}", to_hex(&d), lookups));
+            }
+            // tags are words n..=2n-1
+            for i in positions(n - 1) {
+                let mut d = base.clone();
+                let (a, b) = (rd32(&d, n + i) as u32, rd32(&d, n + i + 1) as u32);
+                put32(&mut d, n + i, b);
+                put32(&mut d, n + i + 1, a);
+                ops.push(format!("viewt {} {}", to_hex(&d), lookups));
+                if i % 7 == 0 {
+                    // equal neighbours: still sorted
+                    let mut e = base.clone();
+                    put32(&mut e, n + i + 1, a);
+                    ops.push(format!("viewt {} {}", to_hex(&e), lookups));
+                }
+            }
+            if n >= 2 {
+                let mut d = base.clone();
+                put32(&mut d, n - 1, n as u32 + 1);
+                ops.push(format!("viewt {} {}", to_hex(&d), lookups));
+                let cut = base[..base.len() - 1].to_vec();
+                ops.push(format!("viewt {} {}", to_hex(&cut), lookups));
+            }
+            cases.extend(ops.chunks(128).map(|c| c.to_vec()));
+        }
+        // (d) iterator protocol (track gen3): every script of <= 2 (thorough: 3) non-consuming steps over a
+        // small alphabet, alone and followed by each consuming step, on iter() and tags().iter() of messages
+        // with 5, 2, 1 and 0 pairs
+        let mut rng = Rng::new(0xC12_17E4);
+        for (k, n) in [5usize, 2, 1, 0].into_iter().enumerate() {
+            let d = gen_valid(&mut rng, n);
+            let depth = if k == 0 { if thorough { 3 } else { 2 } } else { if thorough { 2 } else { 1 } };
+            let mut ops: Vec<String> = Vec::new();
+            for sc in crate::iterscript::enum_scripts(depth, false, n + 2) {
+                ops.push(format!("viewit iter {} {}", to_hex(&d), sc));
+            }
+            for sc in crate::iterscript::enum_scripts(depth, true, n + 2) {
+                ops.push(format!("viewit tags {} {}", to_hex(&d), sc));
+            }
+            cases.extend(ops.chunks(256).map(|c| c.to_vec()));
+        }
         cases
     }
 
     fn gen_case(&self, rng: &mut Rng, _idx: u64, _thorough: bool) -> Vec<String> {
+        if rng.chance(1, 8) {
+            // iterator protocol on a well-formed message (now and then on a mutated one: the op then only
+            // answers the `new` line)
+            let n = match rng.below(6) {
+                0 => rng.range(0, 2) as usize,
+                1 => rng.range(30, 70) as usize,
+                _ => rng.range(2, 12) as usize,
+            };
+            let mut d = gen_valid(rng, n);
+            if rng.chance(1, 12) && !d.is_empty() {
+                let i = rng.below(d.len() as u64) as usize;
+                d[i] = d[i].wrapping_add(1);
+            }
+            let mut ops = Vec::new();
+            for _ in 0..rng.range(2, 8) {
+                if rng.chance(3, 4) {
+                    let de = rng.chance(1, 30);
+                    ops.push(format!("viewit iter {} {}", to_hex(&d), crate::iterscript::gen_script(rng, n, de)));
+                } else {
+                    ops.push(format!("viewit tags {} {}", to_hex(&d), crate::iterscript::gen_script(rng, n, true)));
+                }
+            }
+            return ops;
+        }
         let mut ops = Vec::new();
         if rng.chance(1, 3) {
             // `Tag` pairs: equal, adjacent, and pairs whose little-endian VALUE order differs from the
@@ -1138,14 +1382,181 @@ impl TlvExec {
     }
 }
 
+/// The items of `msgrun <ctor> <vt> <L> <defect>`: `L` pairs with empty borrowed values and the
+/// strictly ascending tags `10 + 2j`, except for ONE defect:
+///   `-` none | `d<i>` the tags of pairs i and i+1 swapped (the only descent is at i) |
+///   `e<i>` pair i+1 carries the tag of pair i (equal tags: still sorted) |
+///   `f<i>:<len>` pair i is a value that reports `len` bytes and is never encoded (value type `h`)
+/// (the Lean driver builds the same list: `Driver/RoughTlv.lean`, `runItems`).
+pub fn msgrun_items(l: usize, defect: &str) -> Option<String> {
+    let mut tags: Vec<u32> = (0..l).map(|j| 10 + 2 * j as u32).collect();
+    let mut fake: Option<(usize, u128)> = None;
+    if defect != "-" {
+        let (kind, rest) = defect.split_at(1);
+        match kind {
+            "d" | "e" => {
+                let i: usize = rest.parse().ok()?;
+                if i + 1 >= l {
+                    return None;
+                }
+                if kind == "d" {
+                    tags.swap(i, i + 1);
+                } else {
+                    tags[i + 1] = tags[i];
+                }
+            }
+            "f" => {
+                let (i, len) = rest.split_once(':')?;
+                let i: usize = i.parse().ok()?;
+                let len: u128 = len.parse().ok()?;
+                if i >= l || len > u64::MAX as u128 {
+                    return None;
+                }
+                fake = Some((i, len));
+            }
+            _ => return None,
+        }
+    }
+    if l == 0 {
+        return Some("-".to_string());
+    }
+    let mut out = String::with_capacity(12 * l);
+    for (j, t) in tags.iter().enumerate() {
+        if j > 0 {
+            out.push(',');
+        }
+        match fake {
+            Some((i, len)) if i == j => out.push_str(&format!("{}:f:{}", t, len)),
+            _ => out.push_str(&format!("{}:b:-", t)),
+        }
+    }
+    Some(out)
+}
+
 impl Exec for TlvExec {
     fn step(&mut self, w: &[&str]) -> StepOut {
         match w {
+            ["msgrun", ctor, vt, l, defect] => {
+                let Ok(l) = l.parse::<usize>() else { return StepOut::bad() };
+                if l > 100_000 || (defect.starts_with('f') && *vt != "h") {
+                    return StepOut::bad();
+                }
+                let Some(items) = msgrun_items(l, defect) else { return StepOut::bad() };
+                let mut so = self.do_msg(ctor, vt, &items);
+                so.tags.push(format!("msgrun_{}_{}", ctor, &defect[..1]));
+                so
+            }
             ["msg", ctor, vt, items] => self.do_msg(ctor, vt, items),
             ["enc", slot, sink] => self.do_enc(slot, sink),
             _ => StepOut::bad(),
         }
     }
+}
+
+/// Pair counts of the single-defect sweeps: everything small, then the neighbourhoods of the powers
+/// of two (block sizes of any blocked / unrolled / vectorised "is it sorted" scan).
+fn sweep_lengths(thorough: bool) -> Vec<usize> {
+    let mut v: Vec<usize> = (2..=40).collect();
+    v.extend(63..=67);
+    v.extend(127..=131);
+    v.extend(255..=258);
+    v.extend(1023..=1026);
+    if thorough {
+        v.extend(41..=62);
+        v.extend(68..=126);
+        v.extend(191..=194);
+        v.extend(511..=514);
+        v.extend(2047..=2050);
+        v.extend(4095..=4098);
+    }
+    v
+}
+
+/// SINGLE-DEFECT SWEEP (track gen3): for every pair count `L` of `sweep_lengths` and EVERY position
+/// `i`, `new_from_sorted` on a list that is sorted except for one descent at `i` (must be rejected,
+/// with that witness); plus, per `L`: the sorted list, equal neighbours at a few positions, the
+/// sorting constructors on a few one-descent lists, and (value type `h`) one value of 2^31 bytes /
+/// of 2^31 - 1 bytes at every position (a few positions for `L` > 131).  Values are empty, so a case
+/// costs `O(L)` per op on both sides.
+fn single_defect_sweep(thorough: bool) -> Vec<Vec<String>> {
+    let mut cases = Vec::new();
+    let vts = ["cow", "h", "ref", "str"];
+    let mut rot = 0usize;
+    for l in sweep_lengths(thorough) {
+        let mut ops: Vec<String> = Vec::new();
+        let cut = |ops: &mut Vec<String>, cases: &mut Vec<Vec<String>>, force: bool| {
+            if (ops.len() >= 160 || force) && !ops.is_empty() {
+                cases.push(std::mem::take(ops));
+            }
+        };
+        ops.push(format!("msgrun sorted {} {} -", vts[l % 4], l));
+        if l <= 40 {
+            // small enough to encode and view as well
+            ops.push("enc 0 iov".into());
+        }
+        for i in 0..l - 1 {
+            rot += 1;
+            ops.push(format!("msgrun sorted {} {} d{}", vts[rot % 4], l, i));
+            cut(&mut ops, &mut cases, false);
+        }
+        cut(&mut ops, &mut cases, true);
+        let some_pos: Vec<usize> = {
+            let mut p = vec![0usize, 1, l / 2, l - 2];
+            p.extend((1..=l / 64).flat_map(|k| [64 * k - 1, 64 * k]));
+            p.retain(|i| i + 1 < l);
+            p.sort_unstable();
+            p.dedup();
+            p
+        };
+        for &i in &some_pos {
+            rot += 1;
+            ops.push(format!("msgrun sorted {} {} e{}", vts[rot % 4], l, i));
+            if l <= 258 {
+                ops.push(format!("msgrun {} {} {} d{}", if rot % 2 == 0 { "new" } else { "slice" }, vts[rot % 4], l, i));
+            }
+        }
+        cut(&mut ops, &mut cases, true);
+        let fake_pos: Vec<usize> = if l <= 131 { (0..l).collect() } else { vec![0, 1, 63, 64, 65, l / 2, l - 2, l - 1] };
+        for &i in &fake_pos {
+            rot += 1;
+            let ctor = ["sorted", "new", "slice"][rot % 3];
+            ops.push(format!("msgrun {} h {} f{}:2147483648", ctor, l, i));
+            if rot % 4 == 0 {
+                ops.push(format!("msgrun {} h {} f{}:2147483647", ctor, l, i));
+            }
+            cut(&mut ops, &mut cases, false);
+        }
+        cut(&mut ops, &mut cases, true);
+    }
+    cases
+}
+
+/// A random point of the same space: any `L` up to 1100 (thorough: 5000), any position.
+fn single_defect_random(rng: &mut Rng, thorough: bool) -> Vec<String> {
+    let mut ops = Vec::new();
+    let top = if thorough { 5000 } else { 1100 };
+    for _ in 0..rng.range(1, 6) {
+        let l = match rng.below(4) {
+            0 => rng.range(2, 70),
+            1 => (1u64 << rng.range(1, if thorough { 12 } else { 10 })) + rng.below(4),
+            _ => rng.range(2, top),
+        } as usize;
+        let l = l.max(2);
+        let i = match rng.below(3) {
+            0 => rng.below(l as u64 - 1) as usize,
+            1 => (l - 2).saturating_sub(rng.below(4) as usize),
+            _ => ((rng.below(l as u64) as usize) & !63usize).saturating_sub(rng.below(2) as usize).min(l - 2),
+        };
+        let vt = *rng.pick(&["cow", "h", "ref", "str"]);
+        match rng.below(8) {
+            0 => ops.push(format!("msgrun sorted {} {} -", vt, l)),
+            1 => ops.push(format!("msgrun sorted {} {} e{}", vt, l, i)),
+            2 if l <= 300 => ops.push(format!("msgrun {} {} {} d{}", rng.pick(&["new", "slice"]), vt, l, i)),
+            3 => ops.push(format!("msgrun {} h {} f{}:{}", rng.pick(&["new", "sorted", "slice"]), l, i, 2147483647u64 + rng.below(2))),
+            _ => ops.push(format!("msgrun sorted {} {} d{}", vt, l, i)),
+        }
+    }
+    ops
 }
 
 /// What the generator remembers about the slots it has produced.
@@ -1265,10 +1676,14 @@ impl Family for TlvFamily {
             }
             cases.push(ops);
         }
+        cases.extend(single_defect_sweep(thorough));
         cases
     }
 
     fn gen_case(&self, rng: &mut Rng, _idx: u64, thorough: bool) -> Vec<String> {
+        if rng.chance(1, 25) {
+            return single_defect_random(rng, thorough);
+        }
         let mut ops = Vec::new();
         let mut slots: Vec<GenSlot> = Vec::new();
         let nmsgs = rng.range(1, if thorough { 8 } else { 5 });
